@@ -172,7 +172,7 @@ Definition decval (l : str) : Z := fold_left (fun a c => a * 10 + (c - 48)) l 0.
 
 Definition float_body (l : str) : option (Z * Z) :=
   let '(ip, r1) := take_digits l in
-  let '(fp, r2) := match r1 with 46 :: r => take_digits r | _ => ([], r1) end in
+  let '(fp, r2) := match r1 with c :: r => if c =? 46 then take_digits r else ([], r1) | [] => ([], r1) end in
   if (length ip + length fp =? 0)%nat then None else
   let m := decval (ip ++ fp) in
   let e0 := - Z.of_nat (length fp) in
@@ -190,9 +190,9 @@ Definition float_body (l : str) : option (Z * Z) :=
   end.
 Definition float_parse (l : str) : option (Z * Z) :=
   match strip l with
-  | 45 :: r => option_map (fun p => (- fst p, snd p)) (float_body r)
-  | 43 :: r => float_body r
-  | r => float_body r
+  | c :: r => if c =? 45 then option_map (fun p => (- fst p, snd p)) (float_body r)
+              else if c =? 43 then float_body r else float_body (c :: r)
+  | [] => float_body []
   end.
 
 Definition zeros (n : Z) : str := repeat 48 (Z.to_nat n).
